@@ -72,7 +72,15 @@ def c17_swapinfo(line):
     args, res = line.split(' => ')
     stb, bb, rst, rb, xb2st, xst2b = [int(x) for x in args.split(' ')]
     if res == 'err':
-        return None
+        # P12a: get_swap_info fails only where its checked arithmetic must: nothing bonded (division by
+        # zero), the bonded sum / the rewards total / the offered amount outside u128
+        conv_ = rb * xb2st // D
+        if stb + bb == 0 or stb + bb > U128MAX or conv_ > U128MAX or rst + conv_ > U128MAX:
+            return None
+        share_ = (rst + conv_) * stb // (stb + bb)
+        if rst <= share_ and (share_ - rst) * xst2b // D > U128MAX:
+            return None
+        return 'get_swap_info failed although %d + %d is bonded and every intermediate value fits u128' % (stb, bb)
     od, oa, ask = res.split(' ')
     oa = int(oa)
     conv = rb * xb2st // D
@@ -169,6 +177,71 @@ def mon_c17(hs, prev, op, ok, trace, cur, known):
                         after = int(b[2])
                 if after != late:
                     return ('violation', 'dispatcher holds %d %s after DispatchRewards (%d arrived afterwards from the distribution module)' % (after, d, late))
+    return None
+
+
+def mon_c17_keeper(hs, prev, op, ok, trace, cur, known):
+    """P17a: on every executed DispatchRewards the keeper receives exactly floor(balance x krp_keeper_rate) of
+    each of the two reward coins, the remainder of the bSei-side coin goes to the bSei reward contract
+    (followed by its index update), the remainder of the stSei-side coin is re-bonded at the hub; nobody
+    else is paid.  (What the dispatcher held of a coin when it was called is the sum of what it sent of it:
+    coins arriving later in the transaction are not re-sent, a zero send fails the transaction - F2.)"""
+    if not ok or prev is None:
+        return None
+    pcfg = prev.one('dp.cfg')
+    if pcfg is None:
+        return None
+    tl = [ln.split(' ') for ln in trace]
+    at = [i for i, u in enumerate(tl) if u[1] == 'wasm' and u[3] == 'disp' and u[4] == 'dispatch_rewards']
+    if len(at) != 1:
+        return None
+    i = at[0]
+    H, R, std, bd, K, rate = pcfg[1], pcfg[2], pcfg[3], pcfg[4], pcfg[5], int(pcfg[6])
+    # outside the trusted configuration: one coin for both sides, or the keeper is a protocol account whose
+    # receipts could not be told from the other payments
+    if std == bd or K in (R, H, 'disp') or R == 'disp':
+        return None
+    kb = rb_ = ks = re_ = 0
+    last_to_r = None
+    ugi = []
+    for j in range(i + 1, len(tl)):
+        u = tl[j]
+        if u[1] == 'bank' and u[2] == 'disp':
+            if u[3] not in (K, R):
+                return ('violation', 'DispatchRewards paid %s to %s, which is neither the keeper %s nor the bSei reward contract %s'
+                        % (u[4], u[3], K, R))
+            for d, a in _coins(u[4]):
+                if d not in (std, bd):
+                    return ('violation', 'DispatchRewards sent %d %s; the reward coins are %s and %s' % (a, d, std, bd))
+                if u[3] == R:
+                    if d == std:
+                        return ('violation', 'DispatchRewards sent %d %s (the stSei-side coin, to be re-bonded) to the bSei reward contract' % (a, d))
+                    rb_ += a
+                    last_to_r = j
+                elif d == bd:
+                    kb += a
+                else:
+                    ks += a
+        elif u[1] == 'wasm' and u[2] == 'disp' and u[4] == 'bond_rewards':
+            if u[3] != H:
+                return ('violation', 'DispatchRewards re-bonded at %s, the hub is %s' % (u[3], H))
+            for d, a in _coins(u[5]):
+                if d != std:
+                    return ('violation', 'DispatchRewards re-bonded %d %s; the stSei-side coin is %s' % (a, d, std))
+                re_ += a
+        elif u[1] == 'wasm' and u[2] == 'disp' and u[4] == 'update_global_index':
+            ugi.append((j, u[3]))
+    if kb + rb_ > 0 and kb != (kb + rb_) * rate // D:
+        return ('violation', 'DispatchRewards held %d %s: the keeper received %d, floor(balance x keeper rate %d) = %d (reward contract received %d)'
+                % (kb + rb_, bd, kb, rate, (kb + rb_) * rate // D, rb_))
+    if ks + re_ > 0 and ks != (ks + re_) * rate // D:
+        return ('violation', 'DispatchRewards held %d %s: the keeper received %d, floor(balance x keeper rate %d) = %d (%d re-bonded)'
+                % (ks + re_, std, ks, rate, (ks + re_) * rate // D, re_))
+    if len(ugi) != 1 or ugi[0][1] != R:
+        return ('violation', 'DispatchRewards sent %d UpdateGlobalIndex messages (to %s); exactly one goes to the bSei reward contract %s'
+                % (len(ugi), ','.join(x[1] for x in ugi) or '-', R))
+    if last_to_r is not None and ugi[0][0] < last_to_r:
+        return ('violation', 'DispatchRewards updated the reward index before the rewards were delivered to %s' % R)
     return None
 
 
@@ -409,6 +482,15 @@ def mon_c11(hs, prev, op, ok, trace, cur, known):
         verb = t[2] if t[0] == 'hub' else 'bond'
         if verb not in ('params', 'migrate'):
             return ('violation', 'hub accepted %r while paused' % op)
+    # P11a: ... and not only as the root message: a paused hub executes nothing but UpdateParams and
+    # MigrateUnbondWaitList anywhere in a message tree (Receive behind a token send, CheckSlashing behind a
+    # burn, RedelegateProxy / UpdateGlobalIndex behind the registry, BondRewards behind the dispatcher); the
+    # guard fails the whole transaction, so no such line exists in a transaction that succeeded
+    if pz == '1' and ok:
+        for ln in trace:
+            u = ln.split(' ')
+            if u[1] == 'wasm' and u[3] == 'hub' and u[4] not in ('update_params', 'migrate_unbond_wait_list'):
+                return ('violation', 'the paused hub executed %s (sent by %s) inside %r' % (u[4], u[2], op))
     if t[0] == 'hub' and t[2] == 'params' and ok:
         if t[1] != _cfg(prev, 'hub.cfg', 0):
             return ('violation', 'UpdateParams accepted from non-owner %s' % t[1])
@@ -417,16 +499,33 @@ def mon_c11(hs, prev, op, ok, trace, cur, known):
             return ('violation', 'hub unpaused (paused=%s) while %s legacy wait-list entries remain' % (t[7], old[0]))
     if t[0] == 'hub' and len(t) > 2 and t[2] == 'migrate' and ok:
         old = prev.one('hub.oldwait')
-        if (old is None or int(old[0]) == 0) and prev.lines != cur.lines:
-            for a_, b_ in zip(prev.lines, cur.lines):
-                if a_ != b_:
-                    return ('violation', 'MigrateUnbondWaitList with no legacy entries left changed the state: %r -> %r '
-                            '(anybody may send it; it must not lift a pause on its own)' % (a_, b_))
+        # (compared as sets of lines: the state shown after the transfer of attached coins lists the two
+        # accounts it touched at the end, obsparse.with_transfer, so the ORDER of the bank lines may differ)
+        if (old is None or int(old[0]) == 0) and sorted(prev.lines) != sorted(cur.lines):
+            gone_ = sorted(set(prev.lines) - set(cur.lines))
+            new_ = sorted(set(cur.lines) - set(prev.lines))
+            return ('violation', 'MigrateUnbondWaitList with no legacy entries left changed the state: %r -> %r '
+                    '(anybody may send it; it must not lift a pause on its own)' % (gone_[:1], new_[:1]))
     cpz = _cfg(cur, 'hub.params', 6)
     if cpz in ('0', '-') and pz == '1':
         old = cur.one('hub.oldwait')
         if old and int(old[0]) > 0:
             return ('violation', 'hub is unpaused while %s legacy wait-list entries remain' % old[0])
+    # P11b: queries keep working and answer the same while paused: an UpdateParams that changes nothing but
+    # the pause flag (in either direction) leaves every hub observation line - stored items and all query
+    # results: State, CurrentBatch, AllHistory pages, UnbondRequests, WithdrawableUnbonded, Config - identical
+    if t[0] == 'hub' and t[2] == 'params' and ok:
+        php_, chp_ = prev.one('hub.params'), cur.one('hub.params')
+        if php_ is not None and chp_ is not None and php_[:6] == chp_[:6] and prev.one('t') == cur.one('t'):
+            skip_ = ('hub.params', 'hub.qparams')
+            pl_ = [ln for ln in prev.lines if ln.startswith('hub.') and ln.split(' ', 1)[0] not in skip_]
+            cl_ = [ln for ln in cur.lines if ln.startswith('hub.') and ln.split(' ', 1)[0] not in skip_]
+            if pl_ != cl_:
+                dif_ = next(((a_, b_) for a_, b_ in zip(pl_, cl_) if a_ != b_), None)
+                if dif_ is None:
+                    dif_ = ('<%d hub lines>' % len(pl_), '<%d hub lines>' % len(cl_))
+                return ('violation', 'UpdateParams{paused: %s} changed a hub observation other than the parameters: %r -> %r '
+                        '(a query or stored item depends on the pause flag)' % (t[7], dif_[0], dif_[1]))
     # pause / unpause cycle: claims, pool totals, batches unchanged
     keys = ('hub.stored', 'hub.batch', 'hub.hist', 'hub.wait', 'hub.cfg', 'hub.newowner')
     if t[0] == 'hub' and t[2] == 'params' and ok and t[3:] == ['-', '-', '-', '-', '1', '-']:
@@ -475,6 +574,18 @@ def mon_c20(hs, prev, op, ok, trace, cur, known):
                 return ('violation', 'UpdateParams omitted field #%d but the stored value changed %s -> %s' % (oi - 2, php[di], chp[di]))
         if chp[6] != t[7]:
             return ('violation', 'pause flag stored as %s after UpdateParams{paused: %s}' % (chp[6], t[7]))
+        # P20b: every field the message carries is stored (the threshold capped at 1)
+        for oi, di, nm in ((3, 0, 'epoch_period'), (4, 2, 'unbonding_period'), (5, 3, 'peg_recovery_fee')):
+            if t[oi] != '-' and int(chp[di]) != int(t[oi]):
+                return ('violation', 'UpdateParams{%s: %s} was accepted but %s is stored' % (nm, t[oi], chp[di]))
+        if t[6] != '-' and int(chp[4]) != min(int(t[6]), D):
+            return ('violation', 'UpdateParams{er_threshold: %s} was accepted but %s is stored (expected min(value, 1))' % (t[6], chp[4]))
+        if t[8] != '-' and chp[5] != t[8]:
+            return ('violation', 'UpdateParams{reward_denom: %s} was accepted but %s is stored' % (t[8], chp[5]))
+        # P20a: ... and nothing outside the parameters moves (configuration and owner slot)
+        for k_ in ('hub.cfg', 'hub.newowner'):
+            if prev.all(k_) != cur.all(k_):
+                return ('violation', 'UpdateParams changed %s: %s -> %s' % (k_, prev.all(k_), cur.all(k_)))
     if ok and t[0] == 'disp' and t[2] == 'config':
         pd, cd = prev.one('dp.cfg'), cur.one('dp.cfg')
         m = {3: 1, 4: 2, 5: 3, 6: 4, 7: 5, 8: 6}
@@ -489,6 +600,48 @@ def mon_c20(hs, prev, op, ok, trace, cur, known):
         for oi, di in m.items():
             if t[oi] == '-' and pc[di] != cc[di]:
                 return ('violation', 'hub UpdateConfig omitted a field but the stored value changed %s -> %s' % (pc[di], cc[di]))
+        # P20a: the owner slot and the parameters are not part of UpdateConfig
+        if pc[0] != cc[0]:
+            return ('violation', 'hub UpdateConfig changed the owner %s -> %s' % (pc[0], cc[0]))
+        for k_ in ('hub.params', 'hub.newowner'):
+            if prev.all(k_) != cur.all(k_):
+                return ('violation', 'hub UpdateConfig changed %s: %s -> %s' % (k_, prev.all(k_), cur.all(k_)))
+    # P20a: the remaining configuration messages - an omitted field keeps its value, fields that are not part
+    # of the message (owner, swap denoms, the other addresses) are untouched
+    if ok and t[0] == 'reward' and len(t) > 5 and t[2] == 'config':
+        pr_, cr_ = prev.one('rw.cfg'), cur.one('rw.cfg')
+        if pr_ is not None and cr_ is not None:
+            for oi, di, nm in ((3, 1, 'hub_contract'), (4, 2, 'reward_denom'), (5, 3, 'swap_contract')):
+                if t[oi] == '-' and pr_[di] != cr_[di]:
+                    return ('violation', 'reward UpdateConfig omitted %s but the stored value changed %s -> %s' % (nm, pr_[di], cr_[di]))
+            if pr_[0] != cr_[0] or pr_[4:] != cr_[4:]:
+                return ('violation', 'reward UpdateConfig changed the owner or the swap denoms: %s -> %s' % (' '.join(pr_), ' '.join(cr_)))
+    if ok and t[0] == 'reg' and len(t) > 3 and t[2] == 'config':
+        pg_, cg_ = prev.one('rg.cfg'), cur.one('rg.cfg')
+        if pg_ is not None and cg_ is not None:
+            if t[3] == '-' and pg_[1] != cg_[1]:
+                return ('violation', 'registry UpdateConfig omitted hub_contract but the stored value changed %s -> %s' % (pg_[1], cg_[1]))
+            if pg_[0] != cg_[0]:
+                return ('violation', 'registry UpdateConfig changed the owner %s -> %s' % (pg_[0], cg_[0]))
+    if ok and t[0] in ('disp', 'reward') and len(t) > 3 and t[2] in ('swapcontract', 'oracle', 'swapdenom'):
+        key_ = 'dp.cfg' if t[0] == 'disp' else 'rw.cfg'
+        pd_, cd_ = prev.one(key_), cur.one(key_)
+        if pd_ is not None and cd_ is not None:
+            nfix = 9 if t[0] == 'disp' else 4          # fields before the swap-denom count
+            if t[2] == 'swapdenom' and len(t) > 4:
+                if pd_[:nfix] != cd_[:nfix]:
+                    return ('violation', '%s UpdateSwapDenom changed another field: %s -> %s' % (t[0], ' '.join(pd_[:nfix]), ' '.join(cd_[:nfix])))
+                old_ = pd_[nfix + 1:]
+                want_ = old_ + [t[3]] if t[4] == '1' else [x for x in old_ if x != t[3]]
+                if cd_[nfix + 1:] != want_ or int(cd_[nfix]) != len(want_):
+                    return ('violation', '%s UpdateSwapDenom{%s, is_add: %s}: swap denoms %s -> %s, expected %s'
+                            % (t[0], t[3], t[4], old_, cd_[nfix + 1:], want_))
+            elif t[0] == 'disp' and t[2] in ('swapcontract', 'oracle'):
+                at_ = 7 if t[2] == 'swapcontract' else 8
+                if cd_[at_] != t[3]:
+                    return ('violation', 'dispatcher %s{%s} was accepted but %s is stored' % (t[2], t[3], cd_[at_]))
+                if pd_[:at_] != cd_[:at_] or pd_[at_ + 1:] != cd_[at_ + 1:]:
+                    return ('violation', 'dispatcher %s changed another field: %s -> %s' % (t[2], ' '.join(pd_), ' '.join(cd_)))
     return None
 
 
@@ -532,7 +685,32 @@ def mon_c18(hs, prev, op, ok, trace, cur, known):
         tk = t[0][5:]
         for key in [k for k in gl if k[0] == tk]:
             del gl[key]
-    if prev is None or not ok or t[0] != 'cw':
+    if prev is None or not ok:
+        return None
+    # P18b: EVERY executed stSei Burn / BurnFrom and bSei BurnFrom - also the burns the hub sends while
+    # unbonding and converting - makes the hub refresh its exchange rates in the same transaction
+    # (one CheckSlashing per burn, sent by the token to the hub it was instantiated with) ...
+    tl_ = [ln.split(' ') for ln in trace]
+    burnt_ = False
+    for tok_, tags_ in (('stsei', ('burn', 'burn_from')), ('bsei', ('burn_from',))):
+        nb_ = sum(1 for u in tl_ if u[1] == 'wasm' and u[3] == tok_ and u[4] in tags_)
+        if nb_ == 0:
+            continue
+        burnt_ = True
+        hub_ = hs.get(tok_ + '_hub', 'hub')
+        nc_ = sum(1 for u in tl_ if u[1] == 'wasm' and u[2] == tok_ and u[3] == hub_ and u[4] == 'check_slashing')
+        if nc_ < nb_:
+            return ('violation', '%s: %d %s executed in %r but the token sent only %d CheckSlashing to the hub %s: the exchange rates '
+                    'were not refreshed after the supply changed' % (tok_, nb_, '/'.join(tags_), op, nc_, hub_))
+    if burnt_ and t[0] != 'cw':
+        # ... and the refresh is effective (for root cw burns this is checked below)
+        import monitors2 as _M2b
+        if _M2b.wired(cur, hs) and _M2b.wired(prev, hs) and _M2b.recomputes(cur):
+            s_, q_ = _M2b.stored(cur), _M2b.qstate(cur)
+            if s_ is not None and q_ is not None and tuple(s_[:4]) != tuple(q_[:4]):
+                return ('violation', 'a token burn in %r did not leave the hub with refreshed exchange rates (stored rates/pools %s, '
+                        'the State query computes %s)' % (op, list(s_[:4]), list(q_[:4])))
+    if t[0] != 'cw':
         return None
     tok, sender, verb = t[1], t[2], t[3]
     ghost_msg = None
@@ -588,9 +766,51 @@ def mon_c18(hs, prev, op, ok, trace, cur, known):
         left = int(cal[0]) if cal is not None else 0
         if left != int(pal[0]) - amt:
             return ('violation', '%s: allowance after %s is %d, expected %d' % (tok, verb, left, int(pal[0]) - amt))
-    if (tok == 'stsei' and verb in ('burn', 'burnfrom')) or (tok == 'bsei' and verb == 'burnfrom'):
+    # ---- P18a: account-level effect of every cw20 verb (exact cw20 semantics, both tokens): who is debited,
+    # who is credited, nobody else moves, the supply moves by exactly the minted / burnt amount
+    exp_ = {}
+    dsup_ = 0
+    judge_ = True
+    others_ = [u for u in tl_[1:] if u[1] == 'wasm' and u[3] == tok]      # further messages to this token in the tree
+
+    def _mv(a_, x_):
+        exp_[a_] = exp_.get(a_, 0) + x_
+    if verb == 'transfer':
+        _mv(sender, -int(t[5])); _mv(t[4], int(t[5]))
+    elif verb == 'transferfrom':
+        _mv(t[4], -int(t[6])); _mv(t[5], int(t[6]))
+    elif verb == 'mint':
+        _mv(t[4], int(t[5])); dsup_ = int(t[5])
+    elif verb == 'burn':
+        _mv(sender, -int(t[4])); dsup_ = -int(t[4])
+    elif verb == 'burnfrom':
+        _mv(t[4], -int(t[5])); dsup_ = -int(t[5])
+    elif verb in ('send', 'sendfrom'):
+        owner_, target_, amt_ = (sender, t[4], int(t[5])) if verb == 'send' else (t[4], t[5], int(t[6]))
+        _mv(owner_, -amt_); _mv(target_, amt_)
+        if others_:
+            # the receiving hub burns what it received (unbond, convert): exactly one Burn, sent by the target
+            if target_ == 'hub' and len(others_) == 1 and others_[0][2] == 'hub' and others_[0][4] == 'burn':
+                _mv(target_, -amt_); dsup_ = -amt_
+                others_ = []
+            else:
+                judge_ = False
+    elif verb not in ('incallow', 'decallow', 'updminter'):
+        judge_ = False
+    if judge_ and not others_:
+        pbal_ = {x[0]: int(x[1]) for x in prev.all('tok.%s.bal' % tok)}
+        cbal_ = {x[0]: int(x[1]) for x in cur.all('tok.%s.bal' % tok)}
+        for a_ in sorted(set(pbal_) | set(cbal_) | set(exp_)):
+            d_ = cbal_.get(a_, 0) - pbal_.get(a_, 0)
+            if d_ != exp_.get(a_, 0):
+                return ('violation', '%s: after %r the balance of %s moved by %d (%d -> %d), expected %d'
+                        % (tok, op, a_, d_, pbal_.get(a_, 0), cbal_.get(a_, 0), exp_.get(a_, 0)))
+        if int(cinfo[0]) - int(pinfo[0]) != dsup_:
+            return ('violation', '%s: %r changed total_supply by %d (%s -> %s), expected %d'
+                    % (tok, op, int(cinfo[0]) - int(pinfo[0]), pinfo[0], cinfo[0], dsup_))
+    if (tok == 'stsei' and verb in ('burn', 'burnfrom')) or (tok == 'bsei' and verb == 'burnfrom') or burnt_:
         want = 'm wasm %s %s check_slashing -' % (tok, hs.get(tok + '_hub', 'hub'))
-        if want not in trace:
+        if want not in trace and not burnt_:
             return ('violation', '%s %s did not make the hub refresh its exchange rates (no CheckSlashing in the transaction)' % (tok, verb))
         # ... and the refresh is effective: what the hub has stored after the transaction (rates and pools) is
         # what its State query computes from the live supplies and delegations (whatever the hub's mode)
@@ -606,11 +826,14 @@ def mon_c18(hs, prev, op, ok, trace, cur, known):
 import monitors2 as M2
 
 HISTORY_MONITORS = {
-    'C01': [M2.guarded(M2.mon_c01)],
-    'C02': [M2.guarded(M2.mon_c02)],
-    'C03': [M2.guarded(M2.mon_c03)],
+    # S6: C01 also runs the released-entry immutability clause (order independence), C02 / C03 the pool
+    # attribution of payments, C05 the pricing monitor (fee never negative on the bSei -> stSei path);
+    # C13's monitor judges the delegation targets of every transaction
+    'C01': [M2.guarded(M2.mon_c01), M2.guarded(M2.mon_released_immutable)],
+    'C02': [M2.guarded(M2.mon_c02), M2.guarded(M2.mon_pool_booking)],
+    'C03': [M2.guarded(M2.mon_c03), M2.guarded(M2.mon_pool_booking)],
     'C04': [M2.guarded(M2.mon_c04)],
-    'C05': [M2.guarded(M2.mon_c05)],
+    'C05': [M2.guarded(M2.mon_c05), M2.guarded(M2.mon_c03)],
     'C06': [M2.guarded(M2.mon_c06), M2.guarded(M2.mon_c01)],
     'C07': [M2.guarded(M2.mon_c07)],
     'C08': [M2.guarded(M2.mon_c08), M2.guarded(M2.mon_c09_epoch)],
@@ -619,11 +842,11 @@ HISTORY_MONITORS = {
     'C14': [M2.guarded(M2.mon_c14)],
     'C15': [M2.guarded(M2.mon_c15)],
     'C16': [M2.guarded(M2.mon_c16)],
-    'C19': [M2.guarded(M2.mon_c19)],
+    'C19': [M2.guarded(M2.mon_c19), M2.guarded(mon_c17_keeper)],
     'C18': [mon_c18],
     'C10': [mon_c10, mon_cfg_stored, mon_rejected_unchanged],
     'C11': [mon_c11, mon_rejected_unchanged],
-    'C17': [mon_c17, mon_c17_share, mon_cfg_stored, M2.guarded(M2.mon_c17_f2)],
+    'C17': [mon_c17, mon_c17_keeper, mon_c17_share, mon_cfg_stored, M2.guarded(M2.mon_c17_f2)],
     'C20': [mon_c20, mon_cfg_stored, mon_rejected_unchanged],
 }
 
